@@ -31,3 +31,7 @@ def run(ctx):
     n = 360 if ctx.quick else 6000
     ctx.tlc("MC_Syntax", "MC_Syntax_sim", replay="syntax-find", simulate={"num": n, "depth": 500, "procs": 12, "seed_offset": 60},
             label="MC_Syntax_sim", timeout=7200)
+    # name collisions across scopes and files (the arrangements of C15): a reference binds to the definition whatever member / module shares its scoped name, in every file order
+    ctx.tlc("MC_Collide", "MC_Collide", replay="repro", coverage=False)
+    trace = ctx.collect_events("repro")
+    ctx.validate_events("Trace_Repro", trace)
